@@ -321,6 +321,12 @@ def _pair_site(ctx, w, ci, m, st, keys, vals):
                 if (eq, True) in facts or [U(a) for a in c.args] != [ivar, key]:
                     ok_miss = False
                     why = 'insert(%s) on a hit path or not at (%s, %s)' % (', '.join(U(a) for a in c.args), ivar, key)
+                # the object list is updated on the same path, by insert at the same index
+                vcalls = [x for e2 in p.events if len(e2) > 1 and isinstance(e2[1], ast.AST) for x in ast.walk(e2[1])
+                          if isinstance(x, ast.Call) and isinstance(x.func, ast.Attribute) and U(x.func.value) == 'self.%s' % vals and x.func.attr in MUTATORS]
+                if len(vcalls) != 1 or vcalls[0].func.attr != 'insert' or len(vcalls[0].args) != 2 or U(vcalls[0].args[0]) != ivar:
+                    ok_miss = False
+                    why = 'object list %s not updated by insert(%s, .) on the miss path: %s' % (vals, ivar, [U(x) for x in vcalls])
     flavour = st.value.func.id
     if hit_paths == 0 and miss_paths == 0:
         # the index only selects a start key (get_CU_containing): the probe guard is the whole obligation
